@@ -431,7 +431,9 @@ func mkLambda[In any](n *mnode, str func(In) string, env *menv) *compose.Lambda 
 	}
 	return compose.TransformableLambda(func(ctx context.Context, in *schema.StreamReader[In]) (*schema.StreamReader[string], error) {
 		c := ctlOf(ctx)
-		sr, sw := schema.Pipe[string](1)
+		// the buffer holds everything the node will ever send: a run that fails elsewhere abandons the stream
+		// without closing it, and a goroutine parked in Send for the rest of the process would be the result
+		sr, sw := schema.Pipe[string](64)
 		go func() {
 			defer in.Close()
 			defer sw.Close()
